@@ -353,8 +353,39 @@ func runC14(c *Ctx) {
 			v.Add(v, big.NewInt(1))
 			vals = append(vals, v)
 		}
+		// every combination of significant byte lengths 1..32 for r and s, with the top bit of the leading byte set and
+		// clear (so every total DER length between 8 and 72 bytes occurs, including the ones that coincide with the sizes
+		// of other encodings such as a raw 64-byte r||s)
+		type pair struct{ r, s *big.Int }
+		var pairs []pair
 		for i, rv := range vals {
-			sv := vals[(i*7+3)%len(vals)]
+			pairs = append(pairs, pair{rv, vals[(i*7+3)%len(vals)]})
+		}
+		mkLen := func(n int, high bool) *big.Int {
+			b := r.Bytes(n)
+			if high {
+				b[0] |= 0x80
+			} else {
+				b[0] = b[0]&0x7f | 0x01
+			}
+			v := new(big.Int).SetBytes(b)
+			if v.Cmp(nm1) > 0 {
+				v.Rsh(v, 1)
+			}
+			return v
+		}
+		for lr := 1; lr <= 32; lr++ {
+			for ls := 1; ls <= 32; ls++ {
+				if !c.Thorough && (lr+ls)%2 != 0 && lr+ls != 57 && lr+ls != 59 {
+					continue
+				}
+				for hb := 0; hb < 4; hb++ {
+					pairs = append(pairs, pair{mkLen(lr, hb&1 != 0), mkLen(ls, hb&2 != 0)})
+				}
+			}
+		}
+		for _, pr := range pairs {
+			rv, sv := pr.r, pr.s
 			var der []byte
 			var err error
 			var r2, s2 *big.Int
@@ -366,7 +397,7 @@ func runC14(c *Ctx) {
 			} else if r3, s3, ok := strictDERSig(der); !ok || r3.Cmp(rv) != 0 || s3.Cmp(sv) != 0 {
 				rep.Violation("C14/SignDigitToSignData/not-strict-DER", mon.Hex(der), w)
 			}
-			rep.Eval(fmt.Sprintf("sigasn1/rlen=%d/slen=%d", len(rv.Bytes()), len(sv.Bytes())))
+			rep.Eval(fmt.Sprintf("sigasn1/rlen=%d/slen=%d/derlen=%d", len(rv.Bytes()), len(sv.Bytes()), len(der)))
 		}
 	}
 	// --- ciphertexts with short coordinates
@@ -518,6 +549,9 @@ func runC14Loaders(c *Ctx) {
 			expect(api, "enc-key-other-scalar-with-embedded-certificate-point", false, call(s.cert, s.key, e.cert, frankenE), w)
 			frankenS, _ := gx509.WritePrivateKeyToPem(&sm2.PrivateKey{D: so.k.D, PublicKey: s.k.PublicKey}, nil)
 			expect(api, "sign-key-other-scalar-with-embedded-certificate-point", false, call(s.cert, frankenS, e.cert, e.key), w)
+			expect(api, "enc-key-is-the-sign-key(same bytes for both roles)", false, call(s.cert, s.key, e.cert, s.key), w)
+			expect(api, "sign-key-is-the-enc-key(same bytes for both roles)", false, call(s.cert, e.key, e.cert, e.key), w)
+			expect(api, "same-pair-for-both-roles", true, call(s.cert, s.key, s.cert, s.key), w)
 			expect(api, "keys-swapped", false, call(s.cert, e.key, e.cert, s.key), w)
 			expect(api, "certs-swapped", false, call(e.cert, s.key, s.cert, e.key), w)
 		}
